@@ -683,12 +683,21 @@ def well_formed_chain(cmd, lv):
 
 def oracle(case, impl):
     p = parse_result(impl)
-    if p["kind"] not in ("ok", "err"):
-        return None                       # INVALID / PANIC / ABORT: other properties (C01)
+    if p["kind"] not in ("ok", "err", "panic"):
+        return None                       # INVALID / ABORT: other properties (C01)
     try:
         cmd, argv = decode_case(case)
     except Exception:
         return None
+    if p["kind"] == "panic":
+        # panics belong to C01, except on a line this property has a verdict for: the chain it names is not reported
+        if "no_binary_name" in cmd["settings"] or not strict(cmd):
+            return None
+        sc = scan(cmd, argv[1:])
+        if sc is None:
+            return None
+        return "a valid line naming the chain %r (%s) made the parser panic: %s" % (
+            [c.decode() for c in sc.chain], ",".join(sc.how), p["msg"][:160])
     if "no_binary_name" not in cmd["settings"]:
         argv = argv[1:]
     is_strict = strict(cmd)
@@ -868,10 +877,6 @@ def global_placements(c, d=0, out=None):
     for s in c["subs"]:
         global_placements(s, d + 1, out)
     return out
-
-
-def outcome_stats(cases_stats, name):
-    return cases_stats
 
 
 def streams(tier, rng):
